@@ -88,6 +88,53 @@ def build(spec):
     return buf, exp
 
 
+def source_lengths():
+    """buffer positions the reader module itself names: every numeric module constant between 1 000 and 400 000 samples
+    (buffer_size, read_size ...) and the products / sums of two int literals of the module in that range - a reader that
+    works chunk by chunk has to get its chunk length from one of them."""
+    import pyModeS.extra.rtlreader as M
+    from engine.util import source_words
+    vals = set()
+    for k_, v in vars(M).items():
+        if isinstance(v, (int, float)) and not isinstance(v, bool) and 1000 <= v <= 400000 and v == int(v):
+            vals.add(int(v))
+    ints = [x for x in source_words(["extra/rtlreader.py"])["ints"] if 2 <= x <= 400000]
+    for a in ints:
+        for b in ints:
+            if 1000 <= a * b <= 400000:
+                vals.add(a * b)
+    mod = sorted(v for k_, v in vars(M).items() if isinstance(v, (int, float)) and not isinstance(v, bool) and 1000 <= v <= 400000 and v == int(v))
+    # module constants first (all of them), then the largest computed ones
+    rest = [v for v in sorted(vals, reverse=True) if v not in mod]
+    return [int(v) for v in mod] + rest[:6]
+
+
+def long_buffers():
+    """one frame straddling / ending at / starting at each such position inside a buffer long enough to contain it, with an
+    ordinary frame well before it: exactly those two frames must come back."""
+    out = []
+    for P in source_lengths():
+        for nm in ("DF17a", "DF11"):
+            pass
+        for d in (-250, -130, -17, -9, -5, -1, 0, 1, 2, 16, 200):
+            for nm in ("DF17a", "DF11"):
+                out.append({"P": P, "d": d, "frame": nm})
+    return out
+
+
+def build_long(spec):
+    ng = P.noise_gen("lcg", 0.01, 7)
+    start = spec["P"] + spec["d"]
+    h1, h2 = FRAMES["DF20"], FRAMES[spec["frame"]]
+    buf = [next(ng) for _ in range(300)] + P.modulate(h1, 0.8, ng)
+    if start < len(buf) + 300:
+        return None, None
+    buf += [next(ng) for _ in range(start - len(buf))]
+    buf += P.modulate(h2, 0.9, ng)
+    buf += [next(ng) for _ in range(1500)]
+    return buf, [h1.upper(), h2.upper()]
+
+
 def new_reader():
     r = RtlReader()          # the real constructor (the SDR device is a stand-in module, see engine.loader.fake_rtlsdr)
     r.signal_buffer = []
@@ -141,7 +188,28 @@ def judge_history(specs):
     return None
 
 
+def w_long(specs):
+    acc = Acc()
+    acc.cov["states"] = 0
+    acc.cov["transitions"] = 0
+    for spec in specs:
+        buf, exp = build_long(spec)
+        if buf is None:
+            continue
+        acc.n += 1
+        acc.cov["transitions"] += 1
+        got = feed(new_reader(), buf)
+        if isinstance(got, tuple):
+            acc.bad("demod:exception:%s:long_buffer" % got[1], {"long": spec})
+        elif got != exp:
+            acc.bad("demod:%s:long_buffer" % ("frame_dropped" if len(got) < len(exp) else "wrong_content"), {"long": spec})
+        acc.out.add(("long", spec["P"], spec["d"], spec["frame"]))
+    return acc.res()
+
+
 def w_specs(arg):
+    if arg and isinstance(arg[0], dict) and "P" in arg[0]:
+        return w_long(arg)
     acc = Acc()
     acc.cov["states"] = 0
     acc.cov["transitions"] = 0
@@ -256,7 +324,7 @@ def run(ctx):
     hs = gen(ctx)
     ctx.cov["states"] = 0
     ctx.cov["transitions"] = 0
-    ctx.pmap(w_specs, chunks(hs, 400))
+    ctx.pmap(w_specs, chunks(hs, 400) + chunks(long_buffers(), 6))
     ctx.cov["traces_validated_against_impl"] = ctx.cov["transitions"]
     ctx.cov["histories"] = len(hs)
     ctx.cov["exhaustive"] = True
@@ -265,5 +333,7 @@ def run(ctx):
 
 
 def replay(case):
+    if "long" in case:
+        return w_long([case["long"]])["viols"]
     s = judge_history(case["history"])
     return [(s, case)] if s else []
